@@ -48,7 +48,7 @@ def languages():
 
 
 COMMON_LANGS = ["en", "fr", "ja", "em", "no", "de", "ru", "ar", "zh-CN", "en-pirate", "ht", "sr-Latn"]
-HEADERS = ["a", "b", "a", "b", "a b", "a(b", "a.b", "[", "a\\\\", "$1", "é", "a|b".replace("|", "\\|"), "<a>", "*", "a+", "^a", "(?i)A"]
+HEADERS = ["a", "b", "a", "b", "id", "uri", "name", "text", "type", "a", "a b", "a(b", "a.b", "[", "a\\\\", "$1", "é", "a|b".replace("|", "\\|"), "<a>", "*", "a+", "^a", "(?i)A"]
 WORDS = ["alpha", "beta", "{x}", "%s", "<a>", "<b>", "<a(b>", "<a.b>", "<axb>", "<[>", "<a\\>", "<$1>", "<a b>", "<A>", "Given", "Soit", "|", "\"\"\"", "@x", "#", "ünï", "日本", "🎬", ":", "Feature:", "x y", "\\", "<", ">", "*"]
 
 
